@@ -282,7 +282,9 @@ impl Report {
             "wall_s": ctx.elapsed(),
             "violations": new_violations.len(),
         });
-        let evpath = PathBuf::from(VERIF_DIR).join("evidence").join(format!("{}.json", self.property));
+        // VERIF_EVIDENCE_DIR lets a long background soak keep its records apart from the per-change evidence
+        let evdir = std::env::var("VERIF_EVIDENCE_DIR").map(PathBuf::from).unwrap_or_else(|_| PathBuf::from(VERIF_DIR).join("evidence"));
+        let evpath = evdir.join(format!("{}.json", self.property));
         let _ = std::fs::create_dir_all(evpath.parent().unwrap());
         std::fs::write(&evpath, serde_json::to_string_pretty(&ev).unwrap()).expect("write evidence");
 
